@@ -147,6 +147,10 @@ def run(tier, seed):
         prog, types, warn = r
         rep.case(text)
         reserved = c07.all_upper_tokens(text)
+        # concepts the author declares; any other predicate is a relation a sentence introduces, whose OWN attributes are copies of its
+        # subject's initialised attributes ("a worker W with age more than 18 ... can work in" gives work_in an age): such a position has
+        # the type of the attribute it copies, whatever concept that one belongs to
+        declared = set(x.lower() for x in re.findall(r'\b[Aa]n? (\w+) (?:is identified|is a temporal concept|goes from|ranges from|is one of)', text))
         try:
             stms = aspast.parse(prog)
         except aspast.ParseError:
@@ -164,7 +168,10 @@ def run(tier, seed):
                     p = pred.strip("'")
                     if p == '#tuple' or p.startswith('x_') or p not in types or pos >= len(types[p]):
                         continue
-                    ts.add(types[p][pos])
+                    ty = types[p][pos]
+                    if isinstance(ty, tuple) and len(ty) == 2 and ty[1] == p and p not in declared:
+                        continue
+                    ts.add(ty)
                 checked_vars += 1
                 if len(ts) > 1:
                     in_tuple = any(p[0] == '#tuple' for p in places)
@@ -180,11 +187,11 @@ def run(tier, seed):
     rep.sample(dict(text=specs[0][1][-300:]))
     rep.sample(lmeta[0] if lmeta else None)
     tie_broken = []
-    if proof['ok']:
+    if proof['ok'] or proof['extra_ok']:
         f = common.run_cases(PID, 'link', PRE, lc, 'lcase_ok', shard=300)
         if f:
             tie_broken.append('linker model differs from the implementation on %d cases, first: %r' % (len(f), lmeta[f[0]]))
-    else:
+    if not proof['ok']:
         tie_broken.append('theorem file does not build: %s' % proof['failed_at'])
     if proof['bad']:
         tie_broken.append('forbidden tokens: %r' % proof['bad'])
